@@ -11,7 +11,7 @@ from vlib.core import Machinery
 RULE = ("Flow A: TLC enumerates every string up to MaxLen over {A,C,G,T,foreign} x a grid of configurations (k in 2..3(4), run "
         "limits, 8 GC ranges incl. lo>hi/0/1, 5 motif sets incl. palindrome and single letter), checks LastWindow, WindowConj, "
         "RevCompInv, SubstrOfValidWindow on the spec and exports both verdicts per (cfg, string); each is replayed into a real "
-        "LocalBioFilter. Flow B: seeded configurations with windows 5..12 and strings to 200 recorded from the code and judged "
+        "LocalBioFilter. Flow B: seeded configurations with windows 1, 4..12 (and 257, 300) and strings to 200 (600) recorded from the code and judged "
         "by Trace_Filter; constructor acceptance is judged too. Distinct non-trivial = distinct (cfg, string) with len >= 2.")
 
 
@@ -77,7 +77,7 @@ LIT_MOTIFS = ["GGC", "GAATTC", "GGATCC", "AAGCTT", "GCGC", "TATA", "ACA", "CCWGG
 def record(rng, ncfg, nstr):
     cfgs, cases = [], []
     for ci in range(ncfg):
-        k = rng.randint(5, 12)
+        k = rng.choice([1, 4, 5, 6, 7, 8, 9, 10, 11, 12])
         if ci % 20 == 7:
             k = rng.choice([257, 300])           # windows longer than a byte counter
         run = rng.choice([0, 1, 2, 3, 4, k - 1, k, k + 1])
